@@ -111,6 +111,7 @@ main(int argc, char** argv)
   va.logging = true;   // compact allocator events (C<id> = calloc, M<id> = malloc, f<id> = free, 0 = refused) are part of the white-box output
   va.compact = true;
   v_setup_io();
+  v_watchdog(20);
   while ((n = v_next(in, tok)) >= 0) {
     if (v_marker(n, tok)) {
       continue;
